@@ -5,6 +5,7 @@ Explicit-state BFS on a fresh UnitSystemManager (not the singleton) in lock-step
 reference model, listeners on on_current / on_unit_changed appending to a log.  To a fixpoint
 (quick: ids {a, b, 'system 1'}; thorough: adds id c and one more category/unit choice).
 """
+from barril.units.unit_system import UnitSystem
 from barril.units.unit_system_manager import UnitSystemManager
 
 from .. import explorer, worlds
@@ -47,13 +48,39 @@ def make_ops(thorough):
     ops.append(("conv", "depth", "km", 2.0))
     ops.append(("conv", "time", "s", 2.0))
     ops.append(("queries",))  # every read-only getter of the manager at once, compared with the model
+    ops.append(("othermgr",))  # a second manager alive at the same time does some work
     return ops
+
+
+FALLBACK = {"time": "min"}
+
+
+class FallbackUnitSystem(UnitSystem):
+    """An application-defined unit system class (installed with SetDefaultUnitSystemClass): categories the
+    user did not configure are answered from a fixed table.  What counts everywhere is what the CURRENT
+    system's GetDefaultUnit reports, not the raw mapping."""
+
+    def GetDefaultUnit(self, category):
+        unit = UnitSystem.GetDefaultUnit(self, category)
+        return FALLBACK.get(category) if unit is None else unit
+
+
+def other_manager_work():
+    """A second manager alive at the same time, with its own current system mapping the same categories to
+    other units, converts a few amounts (nothing may leak into the manager under test)."""
+    m2 = UnitSystemManager()
+    m2.AddUnitSystem("x", "x", {"length": "km", "depth": "cm", "time": "h"})
+    m2.AddUnitSystem("y", "y", {"length": "mm"})
+    out = (m2.ConvertToCurrent("length", "m", 1000.0), m2.ConvertToCurrent("depth", "m", 1.0), m2.ConvertToCurrent("time", "s", 7200.0), m2.GetCategoryDefaultUnit("length"))
+    m2.SetCurrent(m2.GetUnitSystems()["y"])
+    return out + (m2.ConvertToCurrent("length", "m", 1.0),)
 
 
 class Sys:
     def __init__(self):
         self.mgr = UnitSystemManager()
-        self.model = UsmModel()
+        self.mgr.SetDefaultUnitSystemClass(FallbackUnitSystem)
+        self.model = UsmModel(fallback=FALLBACK)
         self.log = []
         self.shared = {"length": "cm", "depth": "m"}
         self.broken = False
@@ -139,6 +166,8 @@ def apply(s, op, part, hist):
             result = mgr.GetNewId()
         elif kind == "conv":
             result = mgr.ConvertToCurrent(op[1], op[2], op[3])
+        elif kind == "othermgr":
+            result = other_manager_work()
         elif kind == "queries":
             from barril.units import ObtainQuantity, Scalar
 
@@ -236,6 +265,13 @@ def apply(s, op, part, hist):
             return True
         if post != pre or s.log[n_log:]:
             bad("query-changed-state", {"before": pre, "after": post})
+            return True
+    if kind == "othermgr":
+        if result != ((1.0, "km"), (100.0, "cm"), (2.0, "h"), "km", (1000.0, "mm")):
+            bad("second manager answers wrongly", {"impl": result})
+            return True
+        if post != pre or s.log[n_log:]:
+            bad("work in a second manager changed this one", {"before": pre, "after": post, "callbacks": s.log[n_log:]})
             return True
     if kind == "queries":
         from barril.units import UnitDatabase
